@@ -6,6 +6,7 @@ import (
 	"encoding/json"
 	"fmt"
 	"math/big"
+	"os"
 	"strings"
 	"sync"
 	"time"
@@ -147,7 +148,9 @@ func c01Build(tier mc.Tier) *c01Fixture {
 			}
 			env, err, pan := doSign(media, req)
 			if err != nil || pan != nil {
-				panic(mc.HarnessError{Msg: fmt.Sprintf("c01: library Sign failed: %v %v", err, pan)})
+				// that a valid request is signed is C08's subject; without the envelope there is no library-signed base entry of this kind
+				fmt.Fprintf(os.Stderr, "C01: no library-signed base entry for %s/%s: Sign refused a valid request: %v %v\n", mediaShort(media), kindOf(k), err, pan)
+				continue
 			}
 			e := &c01Entry{name: fmt.Sprintf("%s/%s/library-signed", mediaShort(media), kindOf(k)), media: media, keyName: k, chain: ch, cont: cont, env: env, lib: true, unprot: envenc.Unprotected{Chain: ders(ch), Agent: "library"}}
 			f.ledger.Record(pki.K(k), rs.Calls[0], media, envenc.TableAlg(pki.K(k).Kind), cont, e.name)
